@@ -134,6 +134,9 @@ impl WriteExt for Writer<&mut BytesMut> {
 
 impl<W: WriteExt + ?Sized> WriteExt for IoBufWriter<W> {
     fn reserve_with(&mut self, additional: usize) -> io::Result<&mut [MaybeUninit<u8>]> {
+        // The reserved window belongs to the inner writer and is committed straight to it by
+        // `flush_len`, so everything `write` has buffered so far must reach it first.
+        io::Write::flush(self)?;
         self.get_mut().reserve_with(additional)
     }
 
